@@ -213,6 +213,9 @@ func hDeliver(zw *Writer, in []byte, deliv, k int) (ok bool) {
 		k = len(in)
 	}
 	ok = true
+	// The Writer gets a private copy: io.Writer forbids modifying the caller's slice, and a Writer that
+	// did (say, by appending to a sub-slice of it) must not also alter the content the harness compares with.
+	in = append(make([]byte, 0, len(in)+64), in...)
 	chk := func(n int, err error, want int) {
 		if err != nil || n != want {
 			ok = false
